@@ -68,7 +68,7 @@ pub fn ref_disagrees(doc: &Doc, text: &str) -> Option<String> {
 }
 
 pub fn c01(ctx: &mut Ctx) {
-    let n: u64 = if ctx.thorough { 400_000 } else { 16_000 };
+    let n: u64 = if ctx.thorough { 3_000_000 } else { 80_000 };
     let variants = if ctx.thorough { 4 } else { 2 };
     for i in 0..n {
         if !ctx.mine(i) { continue; }
@@ -130,7 +130,7 @@ pub fn c04_eval(text: &str) -> Option<(String, String)> {
 }
 
 pub fn c04(ctx: &mut Ctx) {
-    let n: u64 = if ctx.thorough { 400_000 } else { 16_000 };
+    let n: u64 = if ctx.thorough { 3_000_000 } else { 80_000 };
     for i in 0..n {
         if !ctx.mine(i) { continue; }
         let mut r = ctx.rng(i);
@@ -341,7 +341,7 @@ fn out_of_profile(text: &str) -> bool {
 }
 
 pub fn c02(ctx: &mut Ctx) {
-    let n: u64 = if ctx.thorough { 600_000 } else { 24_000 };
+    let n: u64 = if ctx.thorough { 4_000_000 } else { 150_000 };
     for i in 0..n {
         if !ctx.mine(i) { continue; }
         let mut r = ctx.rng(i);
@@ -576,7 +576,7 @@ pub fn c03(ctx: &mut Ctx) {
         return;
     }
     // (a) corpus: generated documents, operators, blind edits, garbage
-    let n: u64 = if ctx.thorough { 400_000 } else { 16_000 };
+    let n: u64 = if ctx.thorough { 2_000_000 } else { 60_000 };
     for i in 0..n {
         if !ctx.mine(i) { continue; }
         let mut r = ctx.rng(i);
